@@ -26,7 +26,10 @@ type Obligation struct {
 	Goal    string
 	Func    string
 	Probe   bool // vacuity probe: expected sat
+	Block   int  // block the obligation belongs to (-1: none): only assertions of its ancestors are relevant
+	Anc     map[int]bool // explicit set of relevant blocks (obligations split over the arms of a wide join)
 	replayed bool
+	candidate bool
 	fv *FuncVC
 	// results
 	Res    SolveResult
@@ -133,6 +136,9 @@ type FuncVC struct {
 	decls     []string
 	declared  map[string]bool
 	asserts   []string
+	assertBlk []int // block in which each assertion was emitted (-1: before the body)
+	inBlocks  bool
+	ancCache  map[int]map[int]bool
 	obls      []*Obligation
 	nfresh    int
 
@@ -228,6 +234,34 @@ func (fv *FuncVC) assert(s string) {
 		return
 	}
 	fv.asserts = append(fv.asserts, s)
+	b := -1
+	if fv.curBlock != nil && fv.inBlocks {
+		b = fv.curBlock.Index
+	}
+	fv.assertBlk = append(fv.assertBlk, b)
+}
+
+// ancestors: blocks from which b is reachable without taking a back edge
+// (b included).
+func (fv *FuncVC) ancestors(b *ssa.BasicBlock) map[int]bool {
+	if a, ok := fv.ancCache[b.Index]; ok {
+		return a
+	}
+	seen := map[int]bool{b.Index: true}
+	stack := []*ssa.BasicBlock{b}
+	for len(stack) > 0 {
+		x := stack[len(stack)-1]
+		stack = stack[:len(stack)-1]
+		for _, p := range x.Preds {
+			if fv.backEdges[[2]int{p.Index, x.Index}] || seen[p.Index] {
+				continue
+			}
+			seen[p.Index] = true
+			stack = append(stack, p)
+		}
+	}
+	fv.ancCache[b.Index] = seen
+	return seen
 }
 
 // assume adds a fact that holds whenever the current block is reached.
@@ -236,7 +270,7 @@ func (fv *FuncVC) assume(s string) {
 }
 
 func (fv *FuncVC) oblige(kind, detail string, props []string, pos token.Pos, goal string, src string) *Obligation {
-	if goal == "true" {
+	if goal == "true" && kind != "fieldinit" {
 		return nil
 	}
 	name := fv.Name + "#" + kind
@@ -259,7 +293,42 @@ func (fv *FuncVC) oblige(kind, detail string, props []string, pos token.Pos, goa
 	if !pos.IsValid() {
 		pos = fv.curPos()
 	}
-	o := &Obligation{Name: name, Kind: kind, Props: props, Pos: pos, Where: fv.P.relPos(pos), Src: src,
+	blk := -1
+	if fv.curBlock != nil && fv.inBlocks {
+		blk = fv.curBlock.Index
+	}
+	if kind != "fieldinit" && kind != "frame" && fv.curBlock != nil && fv.inBlocks && goal != "false" {
+		if J, chain := fv.splitPoint(fv.curBlock); J != nil {
+			// wide join above: one obligation per incoming arm, each seeing only its own arm
+			k := 0
+			var last *Obligation
+			for _, q := range J.Preds {
+				if fv.backEdges[[2]int{q.Index, J.Index}] {
+					continue
+				}
+				if _, ok := fv.reach[q]; !ok {
+					continue
+				}
+				k++
+				anc := map[int]bool{}
+				for b := range fv.ancestors(q) {
+					anc[b] = true
+				}
+				for _, c := range chain {
+					anc[c] = true
+				}
+				anc[J.Index] = true
+				o := &Obligation{Block: blk, Anc: anc, Name: fmt.Sprintf("%s~arm%d", name, k), Kind: kind, Props: props, Pos: pos, Where: fv.P.relPos(pos), Src: src,
+					NAssert: len(fv.asserts), Reach: smtAnd(fv.curReach, fv.edgeReach(q, J)), Goal: goal, Func: fv.Name, fv: fv}
+				fv.obls = append(fv.obls, o)
+				last = o
+			}
+			if last != nil {
+				return last
+			}
+		}
+	}
+	o := &Obligation{Block: blk, Name: name, Kind: kind, Props: props, Pos: pos, Where: fv.P.relPos(pos), Src: src,
 		NAssert: len(fv.asserts), Reach: fv.curReach, Goal: goal, Func: fv.Name, fv: fv}
 	fv.obls = append(fv.obls, o)
 	return o
@@ -434,7 +503,7 @@ func (fv *FuncVC) wf(t Term, gt types.Type) string {
 			mx = smtAnd(app("<", fv.capOf(t), pow2(62)), app("<", fv.offOf(t), pow2(62)))
 		}
 		return smtAnd(fv.ile(z, fv.lenOf(t)), fv.ile(fv.lenOf(t), fv.capOf(t)), fv.ile(z, fv.offOf(t)),
-			app(">=", fv.baseOf(t), "0"), mx)
+			app(">=", fv.baseOf(t), "0"), mx, smtImp(app("=", fv.baseOf(t), "0"), app("=", fv.capOf(t), z)))
 	case KIface:
 		return smtAnd(app(">=", app("Iface_tag", t.S), "0"), smtImp(app("=", app("Iface_tag", t.S), "0"), app("=", app("Iface_ref", t.S), "0")))
 	case KStruct:
@@ -464,6 +533,13 @@ func (fv *FuncVC) freshWF(prefix string, gt types.Type) Term {
 
 // zero value of a Go type
 func (fv *FuncVC) zero(gt types.Type) Term {
+	save := fv.inBlocks
+	fv.inBlocks = false // facts about shared symbols are visible on every path
+	defer func() { fv.inBlocks = save }()
+	return fv.zero1(gt)
+}
+
+func (fv *FuncVC) zero1(gt types.Type) Term {
 	s := fv.sortOf(gt)
 	switch s.Kind {
 	case KBool:
@@ -503,6 +579,13 @@ func (fv *FuncVC) zero(gt types.Type) Term {
 }
 
 func (fv *FuncVC) emptySlice(s Sort) Term {
+	save := fv.inBlocks
+	fv.inBlocks = false // facts about shared symbols are visible on every path
+	defer func() { fv.inBlocks = save }()
+	return fv.emptySlice1(s)
+}
+
+func (fv *FuncVC) emptySlice1(s Sort) Term {
 	name := "nil_" + sortTag(s, fv.Mode)
 	if !fv.declared[name] {
 		fv.declare(name, s)
@@ -518,6 +601,13 @@ func (fv *FuncVC) emptySlice(s Sort) Term {
 
 // strConst returns a Bytes constant with the given content.
 func (fv *FuncVC) strConst(v string) Term {
+	save := fv.inBlocks
+	fv.inBlocks = false // facts about shared symbols are visible on every path
+	defer func() { fv.inBlocks = save }()
+	return fv.strConst1(v)
+}
+
+func (fv *FuncVC) strConst1(v string) Term {
 	if n, ok := fv.strConsts[v]; ok {
 		return Term{S: n, Sort: SBytes}
 	}
@@ -622,6 +712,13 @@ func (fv *FuncVC) ghostTerm(st *State, key string, s Sort) Term {
 }
 
 func (fv *FuncVC) globalTerm(st *State, g *ssa.Global) Term {
+	save := fv.inBlocks
+	fv.inBlocks = false // facts about shared symbols are visible on every path
+	defer func() { fv.inBlocks = save }()
+	return fv.globalTerm1(st, g)
+}
+
+func (fv *FuncVC) globalTerm1(st *State, g *ssa.Global) Term {
 	if t, ok := st.globals[g]; ok {
 		return t
 	}
@@ -712,6 +809,13 @@ func (fv *FuncVC) load(st *State, lv *LValue) Term {
 func (fv *FuncVC) store(st *State, lv *LValue, v Term) {
 	root := fv.lvRoot(st, lv)
 	nv := fv.updPath(root, lv.Path, v)
+	if len(lv.Path) > 0 && root.Sort.Kind == KStruct {
+		// name the updated aggregate: nested updates otherwise grow exponentially
+		n := fv.fresh("upd", root.Sort)
+		n.Go = root.Go
+		fv.assert(app("=", n.S, nv.S))
+		nv = n
+	}
 	switch lv.Kind {
 	case LAlloc:
 		st.cells[lv.Alloc] = nv
@@ -846,4 +950,28 @@ func (fv *FuncVC) forallCopy(dst Term, dstStart string, src Term, srcStart strin
 	srcIdx := fv.iadd(fv.isub(j, lo), fv.iadd(fv.offOf(src), srcStart))
 	sel := app("select", fv.arrOf(dst), j)
 	return fmt.Sprintf("(forall ((%s %s)) (! (=> (and %s %s) (= %s %s)) :pattern (%s)))", j, idxSort(fv.Mode), fv.ile(lo, j), fv.ilt(j, hi), sel, app("select", fv.arrOf(src), srcIdx), sel)
+}
+
+// splitPoint walks up from b through single-predecessor blocks; if it meets
+// a join with many incoming arms (a big switch), obligations stated below it
+// are split per arm.
+func (fv *FuncVC) splitPoint(b *ssa.BasicBlock) (*ssa.BasicBlock, []int) {
+	var chain []int
+	for steps := 0; steps < 8; steps++ {
+		var preds []*ssa.BasicBlock
+		for _, p := range b.Preds {
+			if !fv.backEdges[[2]int{p.Index, b.Index}] {
+				preds = append(preds, p)
+			}
+		}
+		if len(preds) >= 8 && fv.loopHeads[b] == 0 {
+			return b, chain
+		}
+		if len(preds) != 1 || fv.loopHeads[b] > 0 {
+			return nil, nil
+		}
+		chain = append(chain, b.Index)
+		b = preds[0]
+	}
+	return nil, nil
 }
